@@ -970,3 +970,111 @@ Proof. exact nz_string_value_example. Qed.
 
 Print Assumptions C13_normalize_string_value_unchanged.
 Print Assumptions C13_normalize_string_value_example.
+
+(** ** A merged text node of the text-expanded view as the new child of an insertion (Model/DomMergedArg.v; defect
+    D68, repaired by /repo aa36908: the conversion of the argument panicked in [unimplemented!("multi text node.")])
+
+    [step_mx] is the code's behaviour on [append_child] / [insert_before] / [replace_child] whose [new_child] is the
+    node [child_nodes()] hands out for a run of Text / CDATA / reference children ([merged_entry]); the extracted
+    [step_mx] is run against the real crates on every generated call (ops ACX / IBX / IBXX / RCX / RCXX of the dom
+    domain, checks/dom13.py [mergedarg_campaign]).  DOM Level 1 has no such node: there is no specification answer to
+    compare with; what C13 asks of these calls is
+    - failure atomicity: [C13_merged_argument_world_unchanged] (no hypothesis, every world, every call) and along the
+      extended histories [C13_merged_argument_atomic_reachable];
+    - no panic: [C13_merged_argument_no_panic], [C13_merged_argument_no_panic_reachable];
+    - the exception class: [C13_merged_argument_outcome] (by receiver kind and document identity, in the order of the
+      checks of the code), [C13_merged_argument_cases], [C13_merged_argument_never_ok] (the node is never inserted),
+      [C13_merged_argument_not_supported] (NOT_SUPPORTED_ERR exactly for a receiver that can have children and
+      arguments of its own document);
+    - the histories of the earlier sections extended by such calls reach the same worlds
+      ([C13_merged_argument_erase]), so the tree invariant holds along them ([C13_merged_argument_tree_inv]). *)
+From XmlRs Require Import Model.DomMergedArg Proofs.DomMergedArg.
+
+Theorem C13_merged_argument_world_unchanged : forall w o, fst (step_mx w o) = w.
+Proof. exact step_mx_world. Qed.
+
+Theorem C13_merged_argument_no_panic : forall w o, snd (step_mx w o) <> MPanicked.
+Proof. exact step_mx_no_panic. Qed.
+
+Theorem C13_merged_argument_never_ok : forall w o r, snd (step_mx w o) <> MOk r.
+Proof. exact step_mx_never_ok. Qed.
+
+Theorem C13_merged_argument_cases : forall w o,
+  snd (step_mx w o) = MNotApplicable
+  \/ snd (step_mx w o) = MFailed (MExc (XExc HierarchyRequestErr))
+  \/ snd (step_mx w o) = MFailed (MExc (XExc WrongDocumentErr))
+  \/ snd (step_mx w o) = MFailed MNotSupportErr.
+Proof. exact step_mx_cases. Qed.
+
+Theorem C13_merged_argument_outcome : forall w call r c k ref,
+  snd (step_mx w (MxOp call r c k ref)) =
+  if mx_applicable w (MxOp call r c k ref) then
+    match kind_in w r with
+    | Some kd =>
+      if container kd then
+        if negb (fst c =? fst r)%N then MFailed (MExc (XExc WrongDocumentErr))
+        else match mx_ref_wrong w r ref with
+             | Some true => MFailed (MExc (XExc WrongDocumentErr))
+             | _ => MFailed MNotSupportErr
+             end
+      else MFailed (MExc (XExc HierarchyRequestErr))
+    | None => MNotApplicable
+    end
+  else MNotApplicable.
+Proof. exact step_mx_outcome. Qed.
+
+Theorem C13_merged_argument_applicable_refused : forall w o,
+  mx_applicable w o = true -> exists e, snd (step_mx w o) = MFailed e.
+Proof. exact step_mx_applicable_refused. Qed.
+
+Theorem C13_merged_argument_not_supported : forall w call r c k ref,
+  snd (step_mx w (MxOp call r c k ref)) = MFailed MNotSupportErr <->
+  mx_applicable w (MxOp call r c k ref) = true
+  /\ (exists kd, kind_in w r = Some kd /\ container kd = true)
+  /\ fst c = fst r
+  /\ mx_ref_wrong w r ref = Some false.
+Proof. exact step_mx_not_supported. Qed.
+
+Theorem C13_merged_argument_erase : forall ops w, run_y w ops = run_x w (xops_of ops).
+Proof. exact run_y_erase. Qed.
+
+Theorem C13_merged_argument_atomic_reachable : forall init ys o,
+  fst (step_y (run_y init ys) (YMx o)) = run_y init ys.
+Proof. exact merged_argument_atomic_reachable. Qed.
+
+Theorem C13_merged_argument_no_panic_reachable : forall init ys o,
+  snd (step_y (run_y init ys) (YMx o)) <> MPanicked.
+Proof. exact merged_argument_no_panic_reachable. Qed.
+
+Theorem C13_merged_argument_tree_inv : forall init ys, WInv init -> WInv (run_y init ys).
+Proof. exact tree_inv_reachable_with_merged_argument. Qed.
+
+(** non-trivial instance (world and history of Proofs/DomMergedArg.v: two documents with runs of text, CDATA and an
+    attribute; fourteen calls, one of them a real edit): the outcomes, the world reached, its invariant *)
+Example C13_merged_argument_example :
+  WInv mx_world
+  /\ outcomes_y mx_world mx_ops =
+     [ MFailed MNotSupportErr; MFailed MNotSupportErr; MFailed MNotSupportErr; MFailed MNotSupportErr;
+       MFailed (MExc (XExc HierarchyRequestErr)); MFailed (MExc (XExc WrongDocumentErr));
+       MFailed (MExc (XExc WrongDocumentErr)); MFailed (MExc (XExc WrongDocumentErr));
+       MFailed MNotSupportErr; MFailed MNotSupportErr; MNotApplicable; MNotApplicable;
+       MOk (RNode (0%N, 9%N)); MFailed MNotSupportErr ]
+  /\ run_y mx_world mx_ops = fst (step mx_world (RemoveChild (0%N, 2%N) (0%N, 9%N)))
+  /\ WInv (run_y mx_world mx_ops).
+Proof.
+  split; [exact mx_world_inv|]. split; [exact mx_example_outcomes|].
+  destruct mx_example_world as [A [B _]]. split; [exact A | exact B].
+Qed.
+
+Print Assumptions C13_merged_argument_world_unchanged.
+Print Assumptions C13_merged_argument_no_panic.
+Print Assumptions C13_merged_argument_never_ok.
+Print Assumptions C13_merged_argument_cases.
+Print Assumptions C13_merged_argument_outcome.
+Print Assumptions C13_merged_argument_applicable_refused.
+Print Assumptions C13_merged_argument_not_supported.
+Print Assumptions C13_merged_argument_erase.
+Print Assumptions C13_merged_argument_atomic_reachable.
+Print Assumptions C13_merged_argument_no_panic_reachable.
+Print Assumptions C13_merged_argument_tree_inv.
+Print Assumptions C13_merged_argument_example.
